@@ -12,7 +12,8 @@ EXTENDS Gldap, Json, IOUtils
 CONSTANTS Depth,            \* number of environment actions per behaviour
           AllowPanic,       \* generate handler panics
           AllowStopReading, \* generate clients that stop reading
-          AllowAcceptFault  \* generate temporary accept failures
+          AllowAcceptFault, \* generate temporary accept failures
+          AllowSilent       \* generate clients that never start a TLS handshake (after StartTLS) on a plain listener
 
 VARIABLES hist,     \* Seq of [a |-> action/event name, c, i, k, s, hold]
           plan,     \* [Conns -> [Reqs -> BOOLEAN]] : the handler of request i on c holds until released
@@ -35,12 +36,13 @@ ServerQ0 ==
   \/ (RunRegister /\ (IF RegisterLocked /\ ctxDone THEN Log(E("onclose", runArg, 0, "", "", FALSE)) ELSE UNCHANGED hist) /\ UNCHANGED plan)
   \/ \E c \in Conns :
         \/ Quiet(RunAccept(c))
+        \/ Quiet(ConnHandshake(c))
         \/ (ConnHead(c) /\ (IF ctxDone THEN Log(E("notice", c, 0, "", "", FALSE)) ELSE UNCHANGED hist) /\ UNCHANGED plan)
         \/ (ConnRead(c) /\ UNCHANGED plan /\
-              IF inq[c] # <<>> /\ Head(inq[c]) \in {"op", "starttls"} THEN Log(E("hstart", c, nreq[c], Head(inq[c]), "", FALSE))
-              ELSE IF inq[c] # <<>> /\ Head(inq[c]) = "unbind" THEN Log(E("hunbind", c, nreq[c], "unbind", "", FALSE))
+              IF ~NothingToRead(c) /\ ~NeedsHandshake(c) /\ Head(inq[c]) \in {"op", "starttls"} THEN Log(E("hstart", c, nreq[c], Head(inq[c]), "", FALSE))
+              ELSE IF ~NothingToRead(c) /\ ~NeedsHandshake(c) /\ Head(inq[c]) = "unbind" THEN Log(E("hunbind", c, nreq[c], "unbind", "", FALSE))
               ELSE UNCHANGED hist)
-        \/ (cpc[c] = "inline" /\ ~pinline[c][nreq[c]] /\ ConnInlineReturn(c) /\ Log(E("hend", c, nreq[c], "starttls", "", FALSE)) /\ UNCHANGED plan)
+        \/ (cpc[c] = "inline" /\ ~pinline[c][nreq[c]] /\ ~plan[c][nreq[c]] /\ ConnInlineReturn(c) /\ Log(E("hend", c, nreq[c], "starttls", "", FALSE)) /\ UNCHANGED plan)
         \/ (cpc[c] = "inline" /\ pinline[c][nreq[c]] /\ ConnInlinePanic(c) /\ UNCHANGED <<hist, plan>>)
         \/ Quiet(ConnExit(c)) \/ Quiet(TDone(c)) \/ Quiet(TWait(c))
         \/ (TClose(c) /\ Log(E("eof", c, 0, "", "", FALSE)) /\ UNCHANGED plan)
@@ -53,15 +55,16 @@ EnvQ0 ==
   \/ (RunStart /\ Log(E("run", "", 0, "", "", FALSE)) /\ UNCHANGED plan)
   \/ \E s \in Stoppers : StopBegin(s) /\ Log(E("stop", "", 0, "", s, FALSE)) /\ UNCHANGED plan
   \/ \E c \in Conns :
-        \/ (Dial(c) /\ Log(E("dial", c, 0, "", "", FALSE)) /\ UNCHANGED plan)
+        \/ (\E ck \in (IF AllowSilent \/ TLSMode # "none" THEN ClientKinds ELSE {"valid"}) : DialAs(c, ck) /\ Log(E("dial", c, 0, ck, "", FALSE)) /\ UNCHANGED plan)
         \/ (ClientClose(c) /\ Log(E("close", c, 0, "", "", FALSE)) /\ UNCHANGED plan)
         \/ (AllowStopReading /\ StopReading(c) /\ Log(E("stopreading", c, 0, "", "", FALSE)) /\ UNCHANGED plan)
         \/ \E k \in FrameKinds, h \in BOOLEAN :
-              /\ (h => k = "op") /\ net[c] = "open"
+              /\ (h => k \in {"op", "starttls"}) /\ net[c] = "open"
+              /\ (TLSMode # "none" => ckind[c] # "silent")         \* a silent client never sends anything
               /\ Send(c, k) /\ Log(E("send", c, sent[c] + 1, k, "", h))
               /\ plan' = [plan EXCEPT ![c][sent[c] + 1] = h]
   \/ \E c \in Conns, i \in Reqs :
-        \/ (plan[c][i] /\ hs[c][i] = "running" /\ plan' = [plan EXCEPT ![c][i] = FALSE] /\ Log(E("release", c, i, "", "", FALSE)) /\ UNCHANGED vars)
+        \/ (plan[c][i] /\ hs[c][i] \in {"running", "inline"} /\ plan' = [plan EXCEPT ![c][i] = FALSE] /\ Log(E("release", c, i, "", "", FALSE)) /\ UNCHANGED vars)
         \/ (AllowPanic /\ plan[c][i] /\ hs[c][i] = "running" /\ HPanic(c, i) /\ plan' = [plan EXCEPT ![c][i] = FALSE] /\ Log(E("panic", c, i, "", "", FALSE)))
 
 ServerQ == ServerQ0 /\ UNCHANGED pinline
